@@ -894,3 +894,66 @@ func recvNamed(fn *ssa.Function) string {
 	}
 	return ""
 }
+
+// expandAnd adds what a true `a && b` evaluated as a VALUE implies (go/ssa builds a bool phi
+// [short-circuit edge: false, other edge: b] for `case a && b:` of a tagless switch and for `x := a && b`):
+// b is true, and everything that holds on the edge the value b arrives on (among it: a).
+func (g *PCFG) expandAnd(conds []Cond) []Cond {
+	out := append([]Cond(nil), conds...)
+	for i := 0; i < len(out) && i < 64; i++ {
+		cd := out[i]
+		ph, ok := cd.V.(*ssa.Phi)
+		if !ok || !cd.Sense {
+			continue
+		}
+		live := -1
+		okShape := true
+		for k, e := range ph.Edges {
+			if b, isK := constBool(e); isK && !b {
+				continue
+			}
+			if live >= 0 {
+				okShape = false
+			}
+			live = k
+		}
+		if !okShape || live < 0 {
+			continue
+		}
+		out = append(out, Cond{V: ph.Edges[live], Sense: true, At: ph.Block()})
+		pred := ph.Block().Preds[live]
+		out = append(out, g.CondsOnEdge(pred, ph.Block())...)
+	}
+	return out
+}
+
+// holdsOnAllPaths: on every path into block b some established branch outcome satisfies sat. Unlike
+// CondsAt (dominating tests only) it follows the arms of a disjunction: for a block entered from
+// several predecessors (`if a || b`), every entering edge has to carry a satisfying outcome, directly
+// or further up. Value-form conjunctions are expanded (expandAnd).
+func (g *PCFG) holdsOnAllPaths(b *ssa.BasicBlock, sat func(Cond) bool, depth int) bool {
+	for _, cd := range g.expandAnd(g.CondsAt(b)) {
+		if sat(cd) {
+			return true
+		}
+	}
+	if depth > 6 {
+		return false
+	}
+	preds := g.Preds(b)
+	if len(preds) == 0 {
+		return false
+	}
+	for _, pr := range preds {
+		ok := false
+		for _, cd := range g.expandAnd(g.CondsOnEdge(pr, b)) {
+			if sat(cd) {
+				ok = true
+			}
+		}
+		if !ok && !g.holdsOnAllPaths(pr, sat, depth+1) {
+			return false
+		}
+	}
+	return true
+}
